@@ -43,6 +43,9 @@ def gen_req(rnd, script, idx):
             continue
         used.add(n.upper())
         headers.append((n, rnd.choice(HDR_VALUES)))
+    if rnd.random() < 0.2:
+        # a long value: the connection's string pool gives values above 1 KiB a page of their own, and a kept-alive connection reuses the pool
+        headers.append((b"X-Long-Value", bytes([rnd.choice(b"abcdefgh")]) * rnd.choice([1023, 1024, 1025, 1100, 1500, 2040, 2047, 2048, 3000, 5000])))
     cookies = []
     if rnd.random() < 0.4:
         wire = []
@@ -241,6 +244,39 @@ def count_sweep(S, rnd, windex, limit, cnt, res, prefix="c01", kinds=("headers",
                     return
 
 
+def keepalive_value_sweep(S, rnd, windex, cnt, res, prefix="c01"):
+    """two or three requests on one kept-alive connection (http keep-alive, fastcgi keep_conn) where an early one carries a header value
+    of a given length and a later one more header bytes than that: per-connection buffers and pools are reused between the requests"""
+    lengths = [500, 1023, 1024, 1025, 1026, 1100, 1300, 1500, 1800, 2040, 2046, 2047, 2048, 2049, 3000, 4095, 4096, 5000, 8000]
+    for li in range(windex % 4, len(lengths), 4):
+        L = lengths[li]
+        for pn in ("http", "fastcgi"):
+            first = proto.Req(method=b"GET", script=rnd.choice([b"/echo", b"/aecho"]), path_info=b"/ka1", headers=[(b"X-Early", b"e" * rnd.choice([0, 10, 300]))] * (1 if windex % 2 else 0) + [(b"X-Long", b"L" * L)], token=b"K%da" % L)
+            second = proto.Req(method=b"GET", script=rnd.choice([b"/echo", b"/aecho"]), path_info=b"/ka2", headers=[(b"X-B%d" % i, b"b" * 100) for i in range(rnd.choice([12, 25, 40]))], token=b"K%db" % L)
+            third = proto.Req(method=b"GET", script=b"/echo", path_info=b"/ka3", headers=[(b"X-C", b"c" * rnd.choice([1, 1500]))], token=b"K%dc" % L)
+            reqs = [first, second, third]
+            for q in reqs:
+                q.form = None
+                q.cookie_list = []
+            if pn == "http":
+                blob = b"".join(proto.http_encode(q, version=b"1.1", keep_alive=True) for q in reqs)
+            else:
+                blob = b"".join(proto.fcgi_encode(q, reqid=1, keep_conn=True) for q in reqs)
+            outs = roundtrip(S, pn, blob, [], nresp=3, keep=True)
+            cnt("keepalive_value_sweep_connections")
+            for j, q in enumerate(reqs):
+                rp = {"proto": pn + "-keepalive", "bytes": blob[:8000].hex(), "first_value_length": L}
+                if j >= len(outs):
+                    res["viol"].append({"key": prefix + ":pipelined-request-not-answered:" + pn, "detail": "request %d of 3 after a %d-byte header value in the first" % (j + 1, L), "replay": rp})
+                    return
+                echo, err = body_of(pn, outs[j])
+                if echo is None:
+                    res["viol"].append({"key": prefix + ":pipelined-request-not-answered:" + pn, "detail": "request %d of 3 after a %d-byte header value in the first: %s" % (j + 1, L, err), "replay": rp})
+                    return
+                if not check_echo(q, echo, pn + "-keepalive", lambda key, detail, rp=rp: res["viol"].append({"key": key, "detail": "request %d of 3 (first carried a %d-byte value): %s" % (j + 1, L, detail), "replay": rp})):
+                    return
+
+
 def worker(args):
     basedir, exe, seed, ncases, windex = args
     rnd = random.Random(seed)
@@ -253,6 +289,8 @@ def worker(args):
         S = srv.Server(basedir, exe, "srv%d" % windex, overrides={"security": {"content_length_limit": 1024}})
         t_end = time.time() + 3600
         count_sweep(S, rnd, windex, 140 if ncases < 50 else 560, cnt, res)
+        if not res["viol"]:
+            keepalive_value_sweep(S, rnd, windex, cnt, res)
         for ci in range(ncases):
             if time.time() > t_end or res["viol"]:
                 break
